@@ -129,7 +129,17 @@ def _push_typestate(ctx, R, roles, T):
     R.check(not en.loops and en not in inside and dn not in g.reach([en], exc=False) and g.dominates([head], en), "PUSH-events", q + "|DONE-after-data", "DONE is sent once, after the chunk loop", "DONE is not sent exactly once after all DATA", f.loc(en.ast))
     zt = T.term(f, en, eb.get("size")) if eb.get("size") is not None else None
     now = ("call", "builtins.int", (("call", "time.time", (), ()),), ())
-    alts = set(zt[1]) if zt and zt[0] == "phi" else ({zt} if zt else set())
+    from ..terms import alts_of
+    alts = alts_of(zt) if zt else set()
+    if zt and zt[0] == "ite":
+        # the conditional itself must be `mtime == 0 -> now`
+        c = zt[1][1] if zt[1][0] == "cond" else None
+        if c == ("cmp", ("p", "mtime"), ("c", "Eq"), ("c", 0)):
+            alts = alts if (zt[2], zt[3]) == (now, ("p", "mtime")) else {("wrong-arm",)}
+        elif c == ("cmp", ("p", "mtime"), ("c", "NotEq"), ("c", 0)):
+            alts = alts if (zt[3], zt[2]) == (now, ("p", "mtime")) else {("wrong-arm",)}
+        else:
+            alts = {("wrong-condition",)}
     R.check(alts == {("p", "mtime"), now} and "data" not in eb, "PUSH-events", q + "|DONE-mtime", "DONE carries mtime, or int(time.time()) when mtime is 0, and no payload",
             "DONE carries size=%s; expected mtime or int(time.time()) when mtime == 0" % (show(zt) if zt else "nothing"), f.loc(en.ast))
     # the substitution happens exactly when mtime == 0
@@ -270,12 +280,13 @@ def _send_buffer(ctx, R, roles, T):
         ok = e is not None and e[0] == "<" and len(e[1]) == 2 and all(c in "IL" for c in e[1]) and pk[2][1] == ("SYNCWIRE", ("p", "command_id"))
         data_t = rec_[2]
         sz = pk[2][2] if len(pk[2]) > 2 else None
-        szalts = set(sz[1]) if sz and sz[0] == "phi" else {sz}
+        from ..terms import alts_of
+        szalts = alts_of(sz) if sz else {sz}
         ok = ok and ("p", "size") in szalts and ("LEN", data_t) in szalts and len(szalts) == 2
     R.check(ok, "BUF-send", q + "|record", "record = pack('<2I', id word, size) + data with size = len(data) unless given", "the sync record built is %s" % show(rec), f.loc(sn.ast))
     # data: the argument, utf-8 encoded when it is not bytes
     if data_t is not None:
-        alts = set(data_t[1]) if data_t[0] == "phi" else {data_t}
+        alts = alts_of(data_t)
         okd = ("p", "data") in alts and all(a == ("p", "data") or (a[0] == "call" and a[1] == ".encode" and a[2][0] == ("p", "data")) for a in alts)
         R.check(okd, "BUF-send", q + "|data", "payload = the data given (utf-8 encoded when text)", "the record payload is %s, not the data argument" % show(data_t), f.loc(sn.ast))
     # cursor idiom
